@@ -18,17 +18,18 @@ TRAIT_PATH = {}
 class XShape:
     """kind struct|enum|union; variants: list of (style, n) with style u/t/n; generics / where: text"""
 
-    def __init__(self, kind, variants, generics='', where='', name='Ty', ftypes=None):
+    def __init__(self, kind, variants, generics='', where='', name='Ty', ftypes=None, wide=False):
         self.kind = kind
         self.variants = variants
         self.generics = generics
         self.where = where
         self.name = name
         self.ftypes = ftypes or {}
+        self.wide = wide
 
     def code(self):
         return '%s:%s%s%s' % (self.kind[0], ','.join(s + (str(n) if s != 'u' else '') for s, n in self.variants), '|g' if self.generics else '',
-                              '|ty' if (self.ftypes and not self.generics) else '')
+                              '|ty' if (self.ftypes and not self.generics) else ('|w' if self.wide else ''))
 
     def positions(self):
         return [(vi, fi) for vi, (s, n) in enumerate(self.variants) for fi in range(n)]
@@ -107,6 +108,19 @@ def render(shape, cfg, split='one', default_ty='u8'):
 def _field_products(shape, alphabet, maxdev=None):
     """assignments position -> symbol; alphabet[0] is the plain choice; at most maxdev non-plain positions"""
     pos = shape.positions()
+    if len(pos) > 6:
+        # wide shapes: breadth-first by deviations (at most maxdev, never more than 2) instead of the full product
+        k = 2 if maxdev is None else min(maxdev, 2)
+        yield {p: alphabet[0] for p in pos}
+        for r in range(1, k + 1):
+            for where in itertools.combinations(pos, r):
+                if r == 2 and (pos.index(where[0]) + pos.index(where[1])) % 3:
+                    continue
+                for syms in itertools.product(alphabet[1:], repeat=r):
+                    d = {p: alphabet[0] for p in pos}
+                    d.update(zip(where, syms))
+                    yield d
+        return
     for combo in itertools.product(alphabet, repeat=len(pos)):
         if maxdev is not None and sum(1 for c in combo if c != alphabet[0]) > maxdev:
             continue
@@ -270,7 +284,9 @@ def xshapes(level='small'):
           XShape('enum', [('n', 1), ('t', 2)]), XShape('union', [('n', 2)]),
           # pairwise distinct field types (anything keyed by a field type sees several keys)
           XShape('enum', [('t', 2), ('n', 2)], ftypes={(0, 0): 'u8', (0, 1): 'u16', (1, 0): 'u32', (1, 1): 'u64'}),
-          XShape('struct', [('n', 3)], ftypes={(0, 0): 'u8', (0, 1): 'i16', (0, 2): 'char'})]
+          XShape('struct', [('n', 3)], ftypes={(0, 0): 'u8', (0, 1): 'i16', (0, 2): 'char'}),
+          # wide shapes (two-digit field index, four variants)
+          XShape('struct', [('t', 12)], wide=True), XShape('enum', [('t', 1), ('n', 5), ('t', 4), ('n', 1)], wide=True)]
     if level != 'small':
         sh += [XShape('struct', [('n', 1)]), XShape('struct', [('u', 0)]), XShape('enum', [('u', 0), ('t', 1), ('n', 2)]),
                XShape('enum', [('t', 1)]), XShape('struct', [('n', 3)]), XShape('union', [('n', 1)]),
